@@ -39,7 +39,7 @@ def cases(tier, seed):
         for fam in ("gen", "boundary", "degenerate"):
             if fam != "gen" and cfg["env"] == "mtvrp" and cfg.get("preset") not in ("all", "vrpb", "ovrpbltw"):
                 continue
-            if fam == "boundary" and cfg["env"] in ("tsp", "atsp", "pdp", "svrp"):
+            if fam == "boundary" and cfg["env"] in ("tsp", "atsp", "pdp"):
                 continue
             for r in range(reps if fam == "gen" else max(1, reps // 2)):
                 out.append(dict(kind="routing", cfg=cfg, family=fam, B=12, s=rnd.randrange(10**6)))
